@@ -273,6 +273,10 @@ func c04compRun(t *testing.T, e *c04compEnvT, sc c04script) (res c04compResult) 
 					others = nil
 				case 1:
 					others = others[:len(others)/2]
+				case 3:
+					others = others[len(others)-1:]
+				case 4:
+					others = others[:1]
 				default:
 					others = others[:len(others)-1]
 				}
